@@ -6,8 +6,8 @@
            startTimer, stopTimer) is one Gallina function of the same name; every Go `switch
            f.state` is one Gallina `match st f`.  The model carries a [variant]:
              Defective = fsm.go before the fixes d6fc4b1 / 488e192 (kept for the _refuted witnesses),
-             Repaired  = fsm.go of /repo HEAD (both fixes in); the two findings still open on HEAD are
-                         not in [step]: see [restore] (flag) and [raw_timeout]
+             Repaired  = fsm.go of /repo HEAD (fixes d6fc4b1, 488e192, fe05ccf, bbcb995 are in); HEAD's
+                         Restore is [restore true], HEAD's timer callback is ETimeout of [step]
            (they differ in the places marked  (* CELL *)  below and nowhere else).
    Part 2: an independent transcription of the RFC 1661 section 4.1 state transition table
            (from the RFC text, not from the code) and the classification of a concrete
@@ -27,9 +27,9 @@ Definition st_num (s : St) : Z :=
 
 Definition st_eqb (a b : St) : bool := st_num a =? st_num b.
 
-(* Which of the two repairs are applied: fix_cells = fixes/C05_fsm_rfc1661_cells.patch (eleven table
-   cells + timer on zrc), fix_ncp = fixes/C05_ncp_lcp_only_codes.patch (codes 8-11 are unknown codes
-   to an NCP). *)
+(* Historical flags, used only by the _refuted witnesses: fix_cells = commit d6fc4b1 (eleven table cells +
+   timer on zrc), fix_ncp = commit 488e192 (codes 8-11 are unknown codes to an NCP).  /repo HEAD has both:
+   the correspondence check runs [Repaired] only. *)
 Record variant := mkVariant { fix_cells : bool; fix_ncp : bool }.
 Definition Repaired : variant := mkVariant true true.      (* both patches *)
 Definition Defective : variant := mkVariant false false.   (* fsm.go as it stands *)
@@ -344,9 +344,9 @@ Definition input (c : cfg) (v : variant) (code id : Z) (k : Cls) (data : list Z)
 (* One event.  ETimeout is "the restart timer expires": it can only happen while the timer is pending
    (f.timer != nil); the pending timer is consumed (time.AfterFunc fires once) and Timeout() runs.
    Without a pending timer there is no such event (the step is the identity).
-   What today's code does when a timer that was stopped or restarted fires LATE (its callback was
-   already waiting for f.mu) is [raw_timeout] below; fixes/C05_late_timer_fire.patch makes the timer
-   callback ignore such a fire, which is the semantics of ETimeout here. *)
+   /repo HEAD's timer callback timerFired(gen) implements exactly this (it ignores a fire whose timer
+   was stopped or restarted while the callback waited for f.mu).  Before bbcb995 the callback was
+   Timeout() itself and ran regardless: [raw_timeout] below, kept for the historical witness. *)
 Definition step (c : cfg) (v : variant) (f : fsm) (e : Ev) : fsm :=
   let f := clear_out f in
   match e with
@@ -358,7 +358,7 @@ Definition step (c : cfg) (v : variant) (f : fsm) (e : Ev) : fsm :=
   | EInput code id k data => input c v code id k data f
   end.
 
-(* The timer callback of today's code (time.AfterFunc(f.restartTime, f.Timeout)): Timeout() runs
+(* The timer callback before bbcb995 (time.AfterFunc(f.restartTime, f.Timeout)): Timeout() runs
    whether or not the timer is still the pending one, and f.timer is left as it is. *)
 Definition raw_timeout (f : fsm) : fsm := timeout (clear_out f).
 (* A timer that was pending in state f before an event, where f' is the state after the event, is
@@ -373,7 +373,7 @@ Definition fire_still_valid (f f' : fsm) : bool :=
    [Ev]; the correspondence check drives them as ops R and K. *)
 Definition restore (fixed : bool) (c : cfg) (f : fsm) : fsm :=
   clear_out f |> stopTimer |> set_st Opened
-              |> set_restart (if fixed then maxConf c else 0)   (* CELL Restore: restart counter *)
+              |> set_restart (if fixed then maxConf c else 0)   (* fixed = true: HEAD (fe05ccf) *)
               |> set_failc 0.
 Definition kill (f : fsm) : fsm := clear_out f |> stopTimer |> set_st Closed.
 
